@@ -9,3 +9,10 @@ mod rle;
 
 pub use self::flags::Flags;
 pub(crate) use self::{decode::decode, encode::encode, model::Model, range_coder::RangeCoder};
+
+#[cfg(noodles_verif)]
+#[doc(hidden)]
+pub mod verif_hooks {
+    //! Re-exports for verification harnesses (`--cfg noodles_verif`).
+    pub use super::{decode::decode, encode::encode};
+}
